@@ -139,6 +139,11 @@ def fanout_iteration_source(body, dg):
                 if "used_streams" in show(src):
                     out.append((b, "snapshot", f"`{body.lname(st[1]['l'])}` = by-value copy of the live listener list ({show(src)})"))
     for (b, c) in body.calls:
+        if c.get("fname") in ("clone", "to_owned", "to_vec", "into", "from", "try_into") and c["args"] and not c["dst"]["p"]:
+            ty = body.locals[c["dst"]["l"]]["ty"]
+            if (ty.startswith("[u32;") or "Vec<u32" in ty or "Box<[u32" in ty) and "used_streams" in show(dg.expr(c["args"][0])):
+                out.append((b, "snapshot", f"`{c['fname']}()` of the live listener list ({show(dg.expr(c['args'][0]))})"))
+    for (b, c) in body.calls:
         if (c.get("resolved") or c.get("f")) == SM + "::used_streams":
             out.append((b, "live", "reads through the reference returned by used_streams()"))
     return out
